@@ -17,6 +17,7 @@ import (
 	"strconv"
 	"strings"
 	"sync"
+	"syscall"
 	"time"
 )
 
@@ -176,7 +177,26 @@ func shipLogDir() string {
 	return filepath.Join(verifDir, "third_party", "ship-go", "logging")
 }
 
+// repoLock: tools that patch /repo temporarily (tools/seedrun.sh) hold /tmp/repo.lock while the
+// tree is not the committed one; a check started meanwhile waits with its build (the only phase
+// that reads /repo) until the tree is back. VERIF_REPO_LOCK_HELD: the caller holds the lock.
+func repoLock() func() {
+	if os.Getenv("VERIF_REPO_LOCK_HELD") != "" {
+		return func() {}
+	}
+	f, err := os.OpenFile("/tmp/repo.lock", os.O_CREATE|os.O_RDWR, 0o666)
+	if err != nil {
+		return func() {}
+	}
+	if err := syscall.Flock(int(f.Fd()), syscall.LOCK_EX); err != nil {
+		f.Close()
+		return func() {}
+	}
+	return func() { _ = syscall.Flock(int(f.Fd()), syscall.LOCK_UN); f.Close() }
+}
+
 func doBuild(scratch string, race bool, stmt []string) build {
+	defer repoLock()()
 	name := "plain"
 	if race {
 		name = "race"
@@ -235,22 +255,22 @@ type violation struct {
 }
 
 type replayFile struct {
-	Property  string   `json:"property"`
-	Variant   string   `json:"variant"`
-	Signature string   `json:"signature"`
-	Detail    string   `json:"detail"`
-	VerifSeed uint64   `json:"verif_seed"`
-	RunIndex  int      `json:"run_index"`
-	RunSeed   uint64   `json:"run_seed"`
-	Race      bool     `json:"race_build"`
-	StmtFiles string   `json:"stmt_files"`
+	Property  string              `json:"property"`
+	Variant   string              `json:"variant"`
+	Signature string              `json:"signature"`
+	Detail    string              `json:"detail"`
+	VerifSeed uint64              `json:"verif_seed"`
+	RunIndex  int                 `json:"run_index"`
+	RunSeed   uint64              `json:"run_seed"`
+	Race      bool                `json:"race_build"`
+	StmtFiles string              `json:"stmt_files"`
 	Tape      map[string][]uint32 `json:"tape"`
-	OrigLen   int      `json:"original_tape_len"`
-	Shrinks   int      `json:"shrink_executions"`
-	LogHash   string   `json:"log_hash"`
-	Toolchain string   `json:"toolchain"`
-	Schedule  []string `json:"schedule"`
-	Choices   []string `json:"choices"`
+	OrigLen   int                 `json:"original_tape_len"`
+	Shrinks   int                 `json:"shrink_executions"`
+	LogHash   string              `json:"log_hash"`
+	Toolchain string              `json:"toolchain"`
+	Schedule  []string            `json:"schedule"`
+	Choices   []string            `json:"choices"`
 }
 
 type line struct {
@@ -849,36 +869,36 @@ func writeEvidence(prop string, cfg propCfg, tier string, seed uint64, a *agg, s
 		"seed":        int64(seed & 0x7fffffffffffffff),
 		"level":       "exploration",
 		"coverage": map[string]any{
-			"evaluations":                     a.runs,
-			"distinct_nontrivial":             len(a.hashes),
-			"rule":                            cfg.Rule,
-			"samples":                         samples,
-			"states":                          len(a.states),
-			"nontrivial_runs":                 a.nontrivial,
-			"scheduling_steps":                a.steps,
-			"preemptions":                     a.preempts,
-			"clock_advances":                  a.advances,
-			"tasks_created":                   a.tasks,
-			"simulated_seconds":               float64(a.simUs) / 1e6,
-			"runs_per_hour":                   runsPerHour,
-			"run_seed_derivation":             "runSeed = splitmix(splitmix(VERIF_SEED ^ fnv(property)) + runIndex*phi), runIndex in [0, evaluations)",
-			"faults_fired":                    a.faults,
-			"faults_not_applicable":           []string{"disk errors", "torn/lost writes", "full disk", "failing syscalls/allocations", "failing transport writes (writer interface has no error result)", "per-node clock skew (single fake clock)"},
-			"probes":                          a.probes,
-			"probes_expected_but_zero":        zero,
-			"variants":                        a.variants,
-			"strategies":                      map[string]int{"run-to-completion+preemptions": a.strategies[0], "random-walk": a.strategies[1], "pct": a.strategies[2]},
-			"determinism_reexecutions":        a.rechecks,
-			"determinism_mismatches":          a.recheckBad,
-			"builds":                          kinds,
-			"statement_level_preemption":      stmt,
-			"components_real":                 []string{"spine.DeviceLocal and everything below it (entities, features, function data, subscription/binding/heartbeat managers, senders, event bus), model package, instrumented from the current /repo tree"},
-			"components_stub":                 []string{"SHIP transport (simulated network implementing ShipConnectionDataWriterInterface / driving ShipConnectionDataReaderInterface)", "scripted peers (harness code emitting datagrams built with the repo's model types); there is no second real node"},
-			"new_violation_signatures":        newViol,
-			"known_findings_hit":              knownHit,
-			"race_report_signatures":          raceSigs,
-			"distinct_states_measure":         "hash of the scenario's reference-model state / history shape after the run",
-			"violating_runs":                  a.violRuns,
+			"evaluations":                a.runs,
+			"distinct_nontrivial":        len(a.hashes),
+			"rule":                       cfg.Rule,
+			"samples":                    samples,
+			"states":                     len(a.states),
+			"nontrivial_runs":            a.nontrivial,
+			"scheduling_steps":           a.steps,
+			"preemptions":                a.preempts,
+			"clock_advances":             a.advances,
+			"tasks_created":              a.tasks,
+			"simulated_seconds":          float64(a.simUs) / 1e6,
+			"runs_per_hour":              runsPerHour,
+			"run_seed_derivation":        "runSeed = splitmix(splitmix(VERIF_SEED ^ fnv(property)) + runIndex*phi), runIndex in [0, evaluations)",
+			"faults_fired":               a.faults,
+			"faults_not_applicable":      []string{"disk errors", "torn/lost writes", "full disk", "failing syscalls/allocations", "failing transport writes (writer interface has no error result)", "per-node clock skew (single fake clock)"},
+			"probes":                     a.probes,
+			"probes_expected_but_zero":   zero,
+			"variants":                   a.variants,
+			"strategies":                 map[string]int{"run-to-completion+preemptions": a.strategies[0], "random-walk": a.strategies[1], "pct": a.strategies[2]},
+			"determinism_reexecutions":   a.rechecks,
+			"determinism_mismatches":     a.recheckBad,
+			"builds":                     kinds,
+			"statement_level_preemption": stmt,
+			"components_real":            []string{"spine.DeviceLocal and everything below it (entities, features, function data, subscription/binding/heartbeat managers, senders, event bus), model package, instrumented from the current /repo tree"},
+			"components_stub":            []string{"SHIP transport (simulated network implementing ShipConnectionDataWriterInterface / driving ShipConnectionDataReaderInterface)", "scripted peers (harness code emitting datagrams built with the repo's model types); there is no second real node"},
+			"new_violation_signatures":   newViol,
+			"known_findings_hit":         knownHit,
+			"race_report_signatures":     raceSigs,
+			"distinct_states_measure":    "hash of the scenario's reference-model state / history shape after the run",
+			"violating_runs":             a.violRuns,
 		},
 		"assumptions": append(append([]string(nil), common...), cfg.Assumptions...),
 		"wall_s":      wall,
